@@ -106,7 +106,7 @@ def c02(tier, seed):
                 **_seeds(seed + 69, k)) for k in range(2 if tier == "quick" else 6)],
         level="exploration", rule=RULE_SCHED + RULE_W3 + "; plus generated programs with nested DAGs (depth 2), operators, indexing and keyword "
         "arguments where every executed call site must receive exactly the reference's argument terms", assumptions=ASSUME_COMMON,
-        required_reach=["c02_dep_edges", "c02_value_checks", "c10_dependent_arg_checks", "XENTER", "FENTER"], parallel=8 if tier == "quick" else 16,
+        required_reach=["c02_dep_edges", "c02_value_checks", "c10_dependent_arg_checks", "XENTER", "FENTER", "rewired_twins_built_after_the_first_dag_was_dropped"], parallel=8 if tier == "quick" else 16,
     )
 
 
@@ -179,7 +179,7 @@ def c05(tier, seed):
         + [dict(kind="env", pid="C05", scenarios=["reentrant"], how="dag_object_as_node_function", n_cases=(60 if tier == "quick" else 500),
                 only=["dag_object_node_configured_sequential_overlapped_another_node"], **_seeds(seed + 49, k)) for k in range(2 if tier == "quick" else 6)],
         level="exploration", rule=RULE_SCHED + RULE_W3 + "; 40% of the functions are is_sequential (every resource)",
-        assumptions=ASSUME_COMMON, required_reach=["c05_pairs", "FENTER"], parallel=8 if tier == "quick" else 16,
+        assumptions=ASSUME_COMMON, required_reach=["c05_pairs", "FENTER", "env_dag_object_nodes_made_sequential_by_a_reload", "executors_created_before_a_reload_of_is_sequential"], parallel=8 if tier == "quick" else 16,
     )
 
 
@@ -213,7 +213,7 @@ def c08(tier, seed):
                   **_seeds(seed + 15, k)) for k in range(2 if tier == "quick" else 6)]
     return dict(
         jobs=jobs, level="exploration", rule=RULE_SCHED + "; thread-only, async-only and mixed DAGs generated separately",
-        assumptions=ASSUME_COMMON, required_reach=["c08_blocking_waits", "WAIT_thread", "WAIT_async"],
+        assumptions=ASSUME_COMMON, required_reach=["c08_blocking_waits", "WAIT_thread", "WAIT_async", "env_awaits_next_to_a_busy_default_executor"],
         parallel=8 if tier == "quick" else 16,
     )
 
@@ -252,7 +252,7 @@ def c09(tier, seed):
         "can never finish, every operation reaches OP_END, a normal return implies every selected active node ran; "
         "fault position x completion order enumerated on the small shapes",
         assumptions=ASSUME_COMMON + ["unbounded liveness restated as bounded progress on logical steps; wall-clock watchdogs only yield 'inconclusive'"],
-        required_reach=["STEP", "executions", "dfs_runs"], parallel=8 if tier == "quick" else 16,
+        required_reach=["STEP", "executions", "dfs_runs", "env_awaits_next_to_a_busy_default_executor", "node_failure_class:InjectedStop"], parallel=8 if tier == "quick" else 16,
     )
 
 
@@ -272,7 +272,7 @@ def c14(tier, seed):
         "nodes, and_/or_/not_, decorated methods, nested DAG nodes; call, executor, deep copy, after config_from_dict) where each node in "
         "turn fails and the exception must name exactly that node and its exact file:line and carry the injected exception as cause",
         assumptions=ASSUME_COMMON, required_reach=["c14_raised", "c14_descendant_checks", "c14_failure_deliveries", "c14_loc_messages_checked",
-                                                   "c14_loc_kind_reflected", "c14_loc_kind_meth", "c14_loc_kind_bool", "c14_loc_kind_un"],
+                                                   "c14_loc_kind_reflected", "c14_loc_kind_meth", "c14_loc_kind_bool", "c14_loc_kind_un", "node_failure_class:InjectedStop", "node_failure_class:raised_from_a_lower_level_exception", "c14_base_exception_failures"],
         parallel=8 if tier == "quick" else 16,
     )
 
@@ -308,7 +308,7 @@ def c07(tier, seed):
         "order == the unique greedy order; plus random larger DAGs (6..9 nodes); distinct = distinct (shape, priority vector)",
         assumptions=["the compound-priority table is read from DiGraphEx.compound_priority (internal name); the execution-order clause is "
                      "decided at the API level from FENTER events"],
-        required_reach=["cp_table_checks", "order_checks", "FENTER"], parallel=8 if tier == "quick" else 16,
+        required_reach=["cp_table_checks", "order_checks", "FENTER", "cp_setup_runs", "cp_describing_functions_decorated_twice"], parallel=8 if tier == "quick" else 16,
     )
 
 
@@ -356,7 +356,7 @@ def c01(tier, seed):
                 **_seeds(seed + 59, k)) for k in range(2 if tier == "quick" else 6)],
         level="exploration", rule=RULE_DIFF + "; plus histories on one DAG object (calls, executors, composes, configuration reloads, failing "
         "calls, executor re-runs) where every later call must still equal its plain-Python reference", assumptions=ASSUME_DIFF,
-        required_reach=["value_comparisons", "programs", "FENTER", "XENTER"], parallel=8 if tier == "quick" else 16,
+        required_reach=["value_comparisons", "programs", "FENTER", "XENTER", "cases_with_values_that_may_only_be_passed_on", "generic_context_checks"], parallel=8 if tier == "quick" else 16,
     )
 
 
@@ -469,7 +469,7 @@ def c13(tier, seed):
         assumptions=["RUN_DEBUG_NODES is process-global (tawazi.config.cfg): toggled between cases, single-threaded",
                      "a debug node inside the closure with a parent cut away by root_nodes follows C12 semantics and is not flagged (DESIGN 6.10)"],
         required_reach=["c13_flag_off_checks", "c13_whole_call_flag_on", "c13_pulled_in_debug_nodes", "c13_on_off_comparisons", "c13_illegal_build_rejected",
-                        "c13_env_flag_checks", "c13_runs_after_config_reload"],
+                        "c13_env_flag_checks", "c13_runs_after_config_reload", "c13_runs_on_a_deep_copy", "c13_shapes_with_prefix_named_functions"],
         parallel=8 if tier == "quick" else 16,
     )
 
@@ -489,7 +489,7 @@ def c11(tier, seed):
         "with the recorded first values; illegal DAGs (setup depending on a non-setup node / on a DAG argument) must fail to build; "
         "distinct = distinct (program, history)",
         assumptions=["successful operations only (as the property states)", "selections use target_nodes; C12 owns exclude/root semantics"],
-        required_reach=["c11_ops", "c11_setup_entries", "c11_value_checks", "c11_deepcopies", "c11_illegal_build_rejected"],
+        required_reach=["c11_ops", "c11_setup_entries", "c11_value_checks", "c11_deepcopies", "c11_illegal_build_rejected", "c11_illegal_build_rejected"],
         parallel=8 if tier == "quick" else 16,
     )
 
@@ -531,7 +531,7 @@ def c15(tier, seed):
         "value for its own arguments and execute exactly the active call sites; an executor's second run must raise TawaziUsageError or "
         "execute its complete selection and return the right value; distinct = distinct (program, history)",
         assumptions=["the call-history workload uses DAGs without setup nodes; setup state is covered by the (C11) setup-history workload run under this property's clause", "the DAG-level results key set is additionally compared before/after (internal attribute, secondary evidence)"],
-        required_reach=["c15_checked_calls", "c15_executor_reruns_after_failure", "c15_executor_reruns_after_success"],
+        required_reach=["c15_checked_calls", "c15_executor_reruns_after_failure", "c15_executor_reruns_after_success", "env_copy_final_calls", "c15_dags_with_argument_fed_setup_node_refused_at_build"],
         parallel=8 if tier == "quick" else 16,
     )
 
@@ -548,7 +548,7 @@ def c18(tier, seed):
         "n, not n); restart: no FENTER of a node whose id is a key of the file, executed set == selection minus cached, value == un-cached "
         "reference; symbolic terms re-intern on unpickling so identity comparison survives; distinct = distinct (program, caching kw, restart kw)",
         assumptions=["the restart uses the caching run's arguments (restarting with other arguments is not determined by the statement)"],
-        required_reach=["c18_cache_files", "c18_restarts", "c18_value_checks", "c18_cache_deps_of_restarts"],
+        required_reach=["c18_cache_files", "c18_restarts", "c18_value_checks", "c18_cache_deps_of_restarts", "c18_cases_with_tags", "c18_cases_returning_constants_or_arguments", "c18_caching_run_and_restart_in_one_event_loop"],
         parallel=8 if tier == "quick" else 16,
     )
 
@@ -596,7 +596,7 @@ def c16(tier, seed):
         "distinct = distinct (workload, programs, thread count / pause point)",
         assumptions=["setup nodes are excluded from the concurrent-call workload (the property says 'after its setup nodes have run')",
                      "thread pre-emption inside tawazi is explored statistically (tiny switch interval), the build/call overlap deterministically"],
-        required_reach=["c16_concurrent_calls", "c16_build_overlaps", "c16_concurrent_builds", "c16_per_execution_monitor_runs", "c16_lockset_touches_checked", "c16_concurrent_cache_writes"],
+        required_reach=["c16_concurrent_calls", "c16_build_overlaps", "c16_concurrent_builds", "c16_per_execution_monitor_runs", "c16_lockset_touches_checked", "c16_concurrent_cache_writes", "env_per_execution_monitor_runs", "env_worker_thread_cases"],
         parallel=8 if tier == "quick" else 16, timeout=1200,
     )
 
@@ -633,6 +633,6 @@ def c17(tier, seed):
         "triggers 20 stack samples of the loop thread: all inside tawazi => the scheduler blocks the loop (violation), otherwise "
         "inconclusive; distinct = distinct (program, number of awaits, liveness program)",
         assumptions=["liveness clause excludes AsyncDAGs containing thread-resource nodes (documented blocking; DESIGN 6.7)"],
-        required_reach=["c17_flavour_pairs", "c17_concurrent_awaits", "c17_liveness_handshakes", "c17_liveness_served", "c17_setup_result_comparisons", "c17_capacity_cases"],
+        required_reach=["c17_flavour_pairs", "c17_concurrent_awaits", "c17_liveness_handshakes", "c17_liveness_served", "c17_setup_result_comparisons", "c17_capacity_cases", "env_event_loop_cases", "env_cancelled_executions_checked", "generic_context_checks"],
         parallel=8 if tier == "quick" else 16, timeout=1200,
     )
